@@ -7,6 +7,7 @@ the format description in vnacal(3) / the comments of vnacal_layout.h and are th
 which vnacal_save / vnacal_load are compared."""
 import os
 import re
+import struct
 from fractions import Fraction
 
 import vplib
@@ -133,9 +134,13 @@ def within(y, x, p):
 
 
 def same_bits(a, b):
-    """Same binary64 value.  The sign of a zero is not compared: the loader computes
-    'value1 + value2 * I', which turns -0 into +0 (numerically equal, noted in docs/design_C07.md)."""
-    return a == b or (a != a and b != b)
+    """Same binary64 BIT PATTERN: the sign of a zero and of an infinity count; two NaNs are the same whatever
+    their sign and payload (the property is about values the C code can tell apart by ==, signbit, isnan).
+    (Until fix DJ92 vnacal_load's parse_complex computed 'value1 + value2 * I', which turned a real part -0 into
+    +0 and made the real part NaN for an infinite imaginary part; this function then ignored the sign of zero.)"""
+    if a != a or b != b:
+        return a != a and b != b
+    return struct.pack("<d", a) == struct.pack("<d", b)
 
 
 # --------------------------------------------------------------------------- YAML text (writer)
